@@ -196,6 +196,14 @@ def symbolTableOfType (f : ElfBytes) (ty : Nat) : Out (Option (Table Symbol × S
 def symbolTable (f : ElfBytes) := f.symbolTableOfType Abi.SHT_SYMTAB
 def dynamicSymbolTable (f : ElfBytes) := f.symbolTableOfType Abi.SHT_DYNSYM
 
+/-- One step of the scan of `symbol_version_table`: remember the header under its kind. -/
+def verUpdate (shdr : SectionHeader) (vs nd df : Option SectionHeader) :
+    Option SectionHeader × Option SectionHeader × Option SectionHeader :=
+  if shdr.sh_type = Abi.SHT_GNU_VERSYM then (some shdr, nd, df)
+  else if shdr.sh_type = Abi.SHT_GNU_VERNEED then (vs, some shdr, df)
+  else if shdr.sh_type = Abi.SHT_GNU_VERDEF then (vs, nd, some shdr)
+  else (vs, nd, df)
+
 /-- The scan of `symbol_version_table`: the *last* header of each kind seen before all three
     have been found. -/
 def verScan : Nat → Iter SectionHeader →
@@ -205,13 +213,9 @@ def verScan : Nat → Iter SectionHeader →
   | fuel + 1, it, vs, nd, df =>
     match it.next with
     | (.ok (some shdr), it') =>
-      let vs' := if shdr.sh_type = Abi.SHT_GNU_VERSYM then some shdr else vs
-      let nd' := if shdr.sh_type ≠ Abi.SHT_GNU_VERSYM ∧ shdr.sh_type = Abi.SHT_GNU_VERNEED
-                 then some shdr else nd
-      let df' := if shdr.sh_type ≠ Abi.SHT_GNU_VERSYM ∧ shdr.sh_type ≠ Abi.SHT_GNU_VERNEED
-                    ∧ shdr.sh_type = Abi.SHT_GNU_VERDEF then some shdr else df
-      if vs'.isSome && nd'.isSome && df'.isSome then .ok (vs', nd', df')
-      else verScan fuel it' vs' nd' df'
+      let u := verUpdate shdr vs nd df
+      if u.1.isSome && u.2.1.isSome && u.2.2.isSome then .ok u
+      else verScan fuel it' u.1 u.2.1 u.2.2
     | (.ok none, _) => .ok (vs, nd, df)
     | (.err e, _) => .err e
     | (.panic, _) => .panic
